@@ -28,6 +28,9 @@ def check(chk, repo):
         total += len(comps)
         prim, ift = comps[0], comps[-1]
         chk.note(f"{cls}.prim_loop", f"{prim.fn.qual}:{prim.loop.line}")
+        # the spanning tree is grown on the graph of THIS call's samples, labels and row identifiers
+        from ..common import check_fresh_graph
+        check_fresh_graph(rep, w, prim.loop.first_seq, "" if cls == "SupervisedOPF" else "semi:")
         if cls == "SupervisedOPF":
             check_prim(rep, "", prim)
             run_kinds(rep, w)
